@@ -1,6 +1,6 @@
 """C13 - the client follows one consistent timeline of signed tree heads."""
 import sumdbmc
-from vcore import finish, replay_one, record_and_monitor, Infra
+from vcore import finish, replay_one, replay_run, record_and_monitor, Infra
 
 RULE = ("E1: SumdbClient with two timelines A and B sharing a prefix of 0-3 records and diverging by 1-3 records each, a server "
         "that answers every request (records, signed heads, tiles) from its current timeline and switches timeline up to twice, one "
@@ -31,8 +31,8 @@ def run(ctx):
     record_and_monitor(ctx, "clientc13", "SumdbMonitor", "SumdbMonitor", 200 if ctx.quick() else 3000, "C13", shards=12)
     ctx.assumptions += ["hashes as free terms; signatures as facts (Ed25519 unforgeability); the world is built by harness/internal/sumworld",
                         "at most 1-3 corrupted responses per behaviour in the exhaustive part; E3 lifts the bound with random placements"]
-    return finish(ctx, replay_fn=replay_one, rule=RULE)
+    return finish(ctx, replay_fn=replay_run, rule=RULE)
 
 
 def replay(ctx, path, verbose=False):
-    return replay_one(ctx, path, verbose)
+    return replay_run(ctx, path, verbose)
